@@ -1,5 +1,5 @@
 """C06 - scheduling is pure and deterministic in WBS, resources, start and clock."""
-from symx import check, check_all, assume, fresh_int, And, Or, Not, dt, DAY_US
+from symx import check, check_all, choose, assume, fresh_int, And, Or, Not, dt, DAY_US
 from harness import sched
 from harness.sched import setup, run_calc, View, day_of, MON
 from harness.sched_meta import *  # noqa
@@ -74,15 +74,29 @@ def structure_equal(P, w, tasks, res):
             return 'successors differ'
         if r.__dict__.get('custom') is not t.__dict__.get('custom') or r.name != t.name or r.resource != t.resource:
             return 'custom attribute / name / resource differ'
+        ins = set(id(x) for x in tasks)
+        for lst_in, lst_out in ((t.predecessors, r.predecessors), (t.successors, r.successors)):
+            out_in = sorted(id(x) for x in lst_in if id(x) not in ins)
+            res_ids = set(id(x) for x in rt)
+            out_out = sorted(id(x) for x in lst_out if id(x) not in res_ids)
+            if out_in != out_out:
+                return 'links to tasks outside the WBS are not kept on the same outside tasks'
     if [c.id for c in res.roots] != [c.id for c in w.roots]:
         return 'roots differ'
     return None
 
 
-def same_result(P, a, b, items, what):
+def same_result(P, a, b, items, what, clocks=None):
     Va, Vb = View(P, a), View(P, b)
-    for i in range(P.n):
-        items.append((And(Va.t[i].start == Vb.t[i].start, Va.t[i].end == Vb.t[i].end), 'C06 dates differ ' + what, None))
+    if clocks is not None:
+        # KF-C06-1 (= KF-C08-1): an end that calc clamped to the clock value (max(end, now)) on the start day
+        clamped = Or(*([Va.t[j].end == clocks[0] for j in range(P.n)] + [Vb.t[j].end == clocks[1] for j in range(P.n)]))
+        for i in range(P.n):
+            check(And(Va.t[i].start == Vb.t[i].start, Va.t[i].end == Vb.t[i].end), 'C06 dates differ ' + what,
+                  known=[('KF-C06-1', clamped)])
+    else:
+        for i in range(P.n):
+            items.append((And(Va.t[i].start == Vb.t[i].start, Va.t[i].end == Vb.t[i].end), 'C06 dates differ ' + what, None))
     ra = [(i, day_of(r.date)) for i in range(P.n) for r in Va.by_task[i]]
     rb = [(i, day_of(r.date)) for i in range(P.n) for r in Vb.by_task[i]]
     if sorted(ra) != sorted(rb):
@@ -95,9 +109,17 @@ def same_result(P, a, b, items, what):
 
 def h(cfg):
     P, w, tasks = setup(cfg, backward=cfg.get('backward', False))
+    cfg = P.cfg
     for i, t in enumerate(tasks):
         t.custom = ('marker', i)
     w.wbs_attr = 'x'
+    outside = None
+    if cfg.get('outside_same_id'):
+        # a predecessor from another project whose id equals the id of a member
+        k = choose('outside_to', P.n)
+        from pjplan import Task
+        outside = Task(tasks[(k + 1) % P.n].id, 'outside', start=dt(P.start_day - 9, 0), end=dt(P.start_day - 8 + 10 * choose('outside_late', 2), 0))
+        tasks[k].predecessors.append(outside)
     before = snap_input(w, tasks)
     res = sched.make_resources(P)
     from symx.stubs import clock_and_dates
@@ -147,7 +169,7 @@ def h(cfg):
     same_result(P, s1, s2, items, 'between two calls on the same scheduler')
     same_result(P, s1, s3, items, 'between a used and a fresh scheduler')
     if s4 is not None:
-        same_result(P, s1, s4, items, 'between two clocks not later than the project start')
+        same_result(P, s1, s4, items, 'between two clocks not later than the project start', clocks=(P.clock, clock2))
     check_all(items)
 
 
@@ -160,9 +182,13 @@ QUICK_F = {
     'n2-fixed': dict(PL, n=2, fixed=True, fixed_offsets=[-2, 1], dates_on=0, scenarios=[(1, 0)]),
     'n2-resources': dict(PL, n=2, resources=['r', 'q'], calendars=['sparse', 'fraction'], two_clocks=[1], scenarios=[(5, 0)]),
     'n3-summary-values': dict(PL, n=3, summary_values=True, links=False, scenarios=[(2, -1)]),
+    'n2-fixed-two-clocks': dict(PL, n=2, fixed=True, fixed_offsets=[-4], dates_on=0, two_clocks=[2], scenarios=[(2, -1)]),
+    'n2-outside-same-id': dict(PL, n=2, outside_same_id=True, two_clocks=[1], scenarios=[(1, -1)]),
 }
 QUICK_B = {
     'n3-plain': dict(PL, n=3, scenarios=[(0, -1)]),
+    'n3-summary-values': dict(PL, n=3, summary_values=True, links=False, scenarios=[(2, -1)]),
+    'n2-outside-same-id': dict(PL, n=2, outside_same_id=True, scenarios=[(1, -1)]),
     'n2-features': dict(PL, n=2, milestones=True, balance=[True, False], resources=['r', 'q'], calendars=['default', 'sparse'],
                         scenarios=[(2, -1)]),
 }
